@@ -60,6 +60,8 @@ def h_gauss_state(g, n, hbar_sym=False):
             pm, pv = st.poly_quad_expectation(A, k=-0.5)
             g.eq("mean_photon[%d]==poly_quad" % m, pm, mean)
             g.eq("var_photon[%d]==poly_quad" % m, pv, var)
+        ne = st.number_expectation([m])
+        g.eq("number_expectation[%d]==mean_photon" % m, [ne[0], ne[1]], [mean, var])
         qm, qv = st.quad_expectation(m, phi)
         g.eq("quad_expectation[%d].mean" % m, qm, cph * x + sph * p)
         g.eq("quad_expectation[%d].var" % m, qv, cph * cph * vxx + 2 * cph * sph * vxp + sph * sph * vpp)
@@ -169,6 +171,13 @@ def h_fock_state(g, n, D, pure, hbar_sym=False):
         for k in range(1, D):
             acc = acc + fn.sqrt(k + 0 * phi) * (red[k, k - 1] * fn.expi(-phi) + red[k - 1, k] * fn.expi(phi))
         g.eq("quad_expectation[%d].mean^2" % m, qm * qm * 2, fn.real(acc) * fn.real(acc) * h)
+        # variance: <x_phi^2> = (hbar/2) tr(rho (a^2 e^{-2i phi} + a^+2 e^{2i phi} + 2 a^+ a + 1)), the exact
+        # operator restricted to the cutoff (the code squares a (D+5)-dimensional x_phi before truncating)
+        em, ep = fn.expi(-phi), fn.expi(phi)
+        acc2 = sum((2 * k + 1) * red[k, k] for k in range(D))
+        for k in range(2, D):
+            acc2 = acc2 + fn.sqrt(k * (k - 1) + 0 * phi) * (red[k, k - 2] * em * em + red[k - 2, k] * ep * ep)
+        g.eq("quad_expectation[%d].var" % m, (qv + qm * qm) * 2, fn.real(acc2) * h)
     if n >= 2:
         for modes in ([0, 1], [1, 0]) + (([0, 2], [2, 1]) if n > 2 else ()):
             ne = st.number_expectation(list(modes))
